@@ -289,7 +289,10 @@ impl<D: Distance> Writer<D> {
             while let Some((item_id, node)) = cursor.next().transpose()? {
                 match node {
                     Node::Leaf(Leaf { header: _, vector }) => {
-                        let vector = vector.to_vec();
+                        // A binary quantized vector decodes to a multiple of 64 values: only
+                        // the declared dimensions must be re-encoded in the new format.
+                        let mut vector = vector.to_vec();
+                        vector.truncate(self.dimensions);
                         let vector = UnalignedVector::from_vec(vector);
                         let new_leaf = Node::Leaf(Leaf { header: ND::new_header(&vector), vector });
                         unsafe {
